@@ -12,7 +12,12 @@ package grpc
 //	                                src 1 picker, 2 config selector, 3 call credentials,
 //	                                4 dial credentials, 6 the server handler returns code c,
 //	                                7 a second ClientConn whose dialer always fails (channel in
-//	                                TRANSIENT_FAILURE; kind and c unused);
+//	                                TRANSIENT_FAILURE; kind and c unused),
+//	                                8 the server ends the stream (trailers-only: c = 0 unknown
+//	                                method -> UNIMPLEMENTED, c > 0 a handler returning status c
+//	                                without reading) BEFORE the client writes the request: the
+//	                                request codec's Marshal blocks until the client's stats
+//	                                handler has seen InTrailer for the RPC (+30ms);
 //	                                ff = fail-fast (0 = WaitForReady); api 0 Invoke,
 //	                                1 NewStream + SendMsg + CloseSend + RecvMsg...
 //	obs [kind, ok, code]            kind 0 nil, 1 io.EOF, 2 other; (_, ok) = status.FromError(r);
@@ -46,6 +51,7 @@ import (
 	"google.golang.org/grpc/internal/transport"
 	"google.golang.org/grpc/resolver"
 	"google.golang.org/grpc/resolver/manual"
+	"google.golang.org/grpc/stats"
 	"google.golang.org/grpc/status"
 	"google.golang.org/grpc/test/bufconn"
 	"google.golang.org/protobuf/types/known/wrapperspb"
@@ -103,6 +109,53 @@ func vStatusErrObs(r error) []int64 {
 	return []int64{k, vB(ok), int64(status.Code(r))}
 }
 
+// ---- forcing "stream ended by the server before the request is written"
+
+type vStatusErrWatcher struct {
+	mu sync.Mutex
+	ch chan struct{}
+}
+
+func (w *vStatusErrWatcher) arm() chan struct{} {
+	w.mu.Lock()
+	defer w.mu.Unlock()
+	w.ch = make(chan struct{})
+	return w.ch
+}
+func (w *vStatusErrWatcher) TagRPC(ctx context.Context, _ *stats.RPCTagInfo) context.Context {
+	return ctx
+}
+func (w *vStatusErrWatcher) HandleRPC(_ context.Context, s stats.RPCStats) {
+	if _, ok := s.(*stats.InTrailer); ok {
+		w.mu.Lock()
+		if w.ch != nil {
+			close(w.ch)
+			w.ch = nil
+		}
+		w.mu.Unlock()
+	}
+}
+func (w *vStatusErrWatcher) TagConn(ctx context.Context, _ *stats.ConnTagInfo) context.Context {
+	return ctx
+}
+func (w *vStatusErrWatcher) HandleConn(context.Context, stats.ConnStats) {}
+
+// request codec whose Marshal returns only after the trailers of the RPC were received
+type vStatusErrWaitCodec struct{ wait <-chan struct{} }
+
+func (c vStatusErrWaitCodec) Marshal(any) ([]byte, error) {
+	if c.wait != nil {
+		select {
+		case <-c.wait:
+		case <-time.After(5 * time.Second):
+		}
+		time.Sleep(30 * time.Millisecond) // InTrailer is delivered just before closeStream
+	}
+	return []byte("vstatuserr-request"), nil
+}
+func (vStatusErrWaitCodec) Unmarshal([]byte, any) error { return nil }
+func (vStatusErrWaitCodec) Name() string                { return "vstatuserrwait" }
+
 // ---- the end-to-end environment
 
 type vStatusErrEnv struct {
@@ -116,6 +169,7 @@ type vStatusErrEnv struct {
 	lis      *bufconn.Listener
 	prepared bool
 	badCC    *ClientConn // dialer always fails
+	watcher  *vStatusErrWatcher
 }
 
 func (e *vStatusErrEnv) get() (p, c, d error, sc codes.Code) {
@@ -192,6 +246,7 @@ func (e *vStatusErrEnv) prepare() {
 		return
 	}
 	e.prepared = true
+	e.watcher = &vStatusErrWatcher{}
 	e.srv = NewServer()
 	unary := func(_ any, ctx context.Context, dec func(any) error, _ UnaryServerInterceptor) (any, error) {
 		in := new(wrapperspb.Int64Value)
@@ -213,10 +268,19 @@ func (e *vStatusErrEnv) prepare() {
 		}
 		return stream.SendMsg(wrapperspb.Int64(1))
 	}
+	// rejects without reading the request (an auth gate / proxy): trailers-only status
+	reject := func(_ any, stream ServerStream) error {
+		_, _, _, sc := e.get()
+		if sc == codes.OK {
+			sc = codes.Unknown
+		}
+		return status.Error(sc, "vstatuserr: rejected before reading")
+	}
 	e.srv.RegisterService(&ServiceDesc{
 		ServiceName: "v.S", HandlerType: (*any)(nil),
 		Methods: []MethodDesc{{MethodName: "U", Handler: unary}},
-		Streams: []StreamDesc{{StreamName: "B", Handler: bidi, ServerStreams: true, ClientStreams: true}},
+		Streams: []StreamDesc{{StreamName: "B", Handler: bidi, ServerStreams: true, ClientStreams: true},
+			{StreamName: "R", Handler: reject, ServerStreams: true, ClientStreams: true}},
 	}, nil)
 	e.lis = bufconn.Listen(1 << 16)
 	go e.srv.Serve(e.lis)
@@ -232,7 +296,8 @@ func (e *vStatusErrEnv) prepare() {
 	cc, err := NewClient("vstatuserr:///x", WithResolvers(r),
 		WithContextDialer(func(ctx context.Context, _ string) (net.Conn, error) { return e.lis.DialContext(ctx) }),
 		WithTransportCredentials(insecure.NewCredentials()),
-		WithPerRPCCredentials(vStatusErrCreds{e: e}))
+		WithPerRPCCredentials(vStatusErrCreds{e: e}),
+		WithStatsHandler(e.watcher))
 	if err != nil {
 		panic(err)
 	}
@@ -296,6 +361,36 @@ func (e *vStatusErrEnv) rpc(src, ff, api, kind, c int64) error {
 		return err
 	}
 	e.prepare()
+	if src == 8 {
+		method := "/v.S/Nope"
+		if c != 0 {
+			method = "/v.S/R"
+		}
+		e.set(nil, nil, nil, codes.Code(uint32(c)))
+		defer e.set(nil, nil, nil, codes.OK)
+		ctx, cancel := context.WithTimeout(context.Background(), 20*time.Second)
+		defer cancel()
+		opt := ForceCodec(vStatusErrWaitCodec{wait: e.watcher.arm()})
+		if api == 0 {
+			return e.cc.Invoke(ctx, method, &struct{}{}, &struct{}{}, opt)
+		}
+		cs, err := e.cc.NewStream(ctx, &StreamDesc{ClientStreams: true, ServerStreams: true}, method, opt)
+		if err != nil {
+			return err
+		}
+		if err := cs.SendMsg(&struct{}{}); err != nil && err != io.EOF {
+			return err
+		}
+		cs.CloseSend()
+		for {
+			if err := cs.RecvMsg(&struct{}{}); err != nil {
+				if err == io.EOF {
+					return nil
+				}
+				return err
+			}
+		}
+	}
 	inj := vStatusErrMk(kind, c)
 	var opts []CallOption
 	if ff == 0 {
@@ -364,7 +459,7 @@ func vStatusErrExec(cfg []int64, ops [][]int64) ([][]int64, bool, []string) {
 			}
 			obs = append(obs, vStatusErrObs(toRPCErr(err)))
 			tags["toRPCErr"] = true
-		case len(op) == 6 && op[0] == 2 && op[1] >= 1 && op[1] <= 7 && op[1] != 5 && vStatusErrCodeOK(op[5]):
+		case len(op) == 6 && op[0] == 2 && op[1] >= 1 && op[1] <= 8 && op[1] != 5 && vStatusErrCodeOK(op[5]):
 			o := vStatusErrObs(e.rpc(op[1], op[2], op[3], op[4], op[5]))
 			obs = append(obs, o)
 			tags[fmt.Sprintf("src%d", op[1])] = true
@@ -376,7 +471,7 @@ func vStatusErrExec(cfg []int64, ops [][]int64) ([][]int64, bool, []string) {
 		}
 	}
 	var tl []string
-	for _, k := range []string{"toRPCErr", "src1", "src2", "src3", "src4", "src6", "src7", "internal"} {
+	for _, k := range []string{"toRPCErr", "src1", "src2", "src3", "src4", "src6", "src7", "src8", "internal"} {
 		if tags[k] {
 			tl = append(tl, k)
 		}
@@ -438,6 +533,11 @@ func vStatusErrGen(r *vRand, tier string, idx int) ([]int64, [][]int64) {
 				ops = append(ops, []int64{2, 6, 1, api, 0, c})
 			}
 		}
+		for _, c := range []int64{0, 7, 5, 16} { // stream ended by the server before the request is written
+			for api := int64(0); api <= 1; api++ {
+				ops = append(ops, []int64{2, 8, 1, api, 0, c})
+			}
+		}
 		for ff := int64(0); ff <= 1; ff++ { // failing dialer
 			for api := int64(0); api <= 1; api++ {
 				ops = append(ops, []int64{2, 7, ff, api, 0, 0})
@@ -473,6 +573,9 @@ func vStatusErrGen(r *vRand, tier string, idx int) ([]int64, [][]int64) {
 				ops = append(ops, []int64{2, 6, 1, int64(r.Intn(2)), 0, int64(r.Intn(17))})
 				if r.Chance(15) {
 					ops = append(ops, []int64{2, 7, int64(r.Intn(2)), int64(r.Intn(2)), 0, 0})
+				}
+				if r.Chance(30) {
+					ops = append(ops, []int64{2, 8, 1, int64(r.Intn(2)), 0, int64(r.Intn(17))})
 				}
 			default:
 				src := r.PickI64(1, 1, 2, 2, 3, 4)
